@@ -447,7 +447,8 @@ class Explorer:
     may still be explored.
     """
 
-    def __init__(self, run, allowed, on_exec, max_execs=None):
+    def __init__(self, run, allowed, on_exec, max_execs=None, shard=None):
+        self.shard = shard    # (k, m): explore only every m-th root-level alternative (the k-th residue)
         self.run = run
         self.allowed = allowed
         self.on_exec = on_exec
@@ -479,7 +480,8 @@ class Explorer:
             prefix, expect = stack.pop()
             x = self.run(prefix, expect)
             self.execs += 1
-            self.on_exec(x, prefix)
+            if not (self.shard and self.shard[0] != 0 and not prefix):
+                self.on_exec(x, prefix)
             ds = x.decisions
             self.max_decisions = max(self.max_decisions, len(ds))
             pb = eb = ob = 0
@@ -495,6 +497,10 @@ class Explorer:
                             exp = tuple([hash((q.kind, q.n, q.label)) for q in ds])
                             chosen = tuple([q.chosen for q in ds])
                         for alt in range(1, d.n):
+                            if self.shard and not prefix:
+                                self._rootalt = getattr(self, "_rootalt", -1) + 1
+                                if self._rootalt % self.shard[1] != self.shard[0]:
+                                    continue
                             stack.append((chosen[:i] + (alt,), exp[:i + 1]))
                 if d.chosen != 0 and d.cost:
                     if d.kind == "thr":
